@@ -24,11 +24,13 @@ def check_C45(tier):
     prop = "C45"
     seed = core.env_seed()
     core.stage()
-    rep = core.Report(prop, "rider:E3+E4 under profile/trace", tier, seed)
+    rep = core.Report(prop, "rider:E3+E4+E11 under profile/trace", tier, seed)
     rep.rule = ("the generator-history workloads of E3 and the exception fault-plan workloads of E4, compiled with profile=True, linetrace=True, -DCYTHON_TRACE=1 and run under "
                 "sys.setprofile, sys.settrace, or both at once (cases alternate) with a monitor checked while the run proceeds: every start event of a workload function is matched by "
                 "exactly one return event of the same code object, properly nested; the stack of open activations is empty at the end of each history/plan; line events "
                 "occur inside the activation of their function and name a line inside its def span. Faults: the same throws, closes, abandonments and injected raises. "
+                "Third workload family (E11): generated .pyx modules - cdef functions with every exception specification (noexcept -> unraisable), cpdef + Python override, "
+                "cdef-class __next__/__enter__/__exit__/property, nogil helper re-acquiring the GIL, typed conversions made to fail by probe return values - under fault plans. "
                 "non-trivial / distinct as in the host engines")
     rep.components = {"real": ["Cython/Utility/Profile.c event emission", "generated trace calls (put_trace_*)", "sys.setprofile / sys.settrace of CPython 3.12"],
                       "stub": ["monitor callbacks"]}
@@ -38,14 +40,27 @@ def check_C45(tier):
                                   nruns=600 if tier == "quick" else None, extra_cfg={"observer": True}, nmods=3 if tier == "quick" else 8, prop=prop)
     viol4, mods4, cfg4 = e4_exc.explore(rep, prop, seed, tier, "trace", cflags=TRACE_CFLAGS, directives=TRACE_DIRECTIVES, budget=budget * 0.5,
                                         extra_cfg={"observer": True, "single_cap": 20, "nmulti": 10}, nmods=3 if tier == "quick" else 8)
+    # typed .pyx family (E11): cdef functions with every exception specification incl. noexcept (unraisable), cpdef with Python
+    # override, cdef-class __next__/__enter__/__exit__/properties, nogil helpers - no CPython model needed for this observer
+    from . import e11_pyx
+    viol11, mods11, cfg11, _ = e11_pyx.explore(rep, prop, seed, tier, "trace", "trace", cflags=TRACE_CFLAGS, directives=TRACE_DIRECTIVES,
+                                               budget=budget * 0.35, nmods=3 if tier == "quick" else 8)
+    modmap11 = {m["name"]: m for m in mods11}
+    for i, v in viol11:
+        if v["klass"] == "crash" and v.get("func") is None:
+            rec = e11_pyx.recover_crash(seed, i, cfg11, mods11, prop, "trace")
+            if rec:
+                v["func"], v["arg"], v["plan"] = rec
+        elif v.get("func") is not None:
+            v.update(e11_pyx.minimise_plan(v, modmap11[v["module"]], "trace"))
     core.replay_known(prop, replay, rep)
     rep.determinism = {"seeds": 0, "mismatches": 0, "note": "host engines' self-checks apply (C23, C22)"}
     seen = set()
-    for i, v in list(viol3) + list(viol4):
+    for i, v in list(viol3) + list(viol4) + list(viol11):
         if v["klass"] in seen:
             continue
         seen.add(v["klass"])
-        if v["klass"] == "crash":
+        if v["klass"] == "crash" and v.get("family") != "E11":
             rep.harness_errors.append("a traced workload crashed a worker (run %s): %s" % (i, json.dumps(v.get("detail"))))
             continue
         v = dict(v, property=prop, cflags=list(TRACE_CFLAGS), directives=TRACE_DIRECTIVES)
@@ -85,6 +100,9 @@ def replay(payload):
     prop = payload["property"]
     if prop == "C36" and not payload.get("corpus"):
         raise core.HarnessError("C36 replays of host-engine cases: re-run the host engine's replay under the sanitizer environment")
+    if prop == "C45" and payload.get("family") == "E11":
+        from . import e11_pyx
+        return e11_pyx.replay(payload, "trace", cflags=TRACE_CFLAGS, directives=TRACE_DIRECTIVES)
     if prop == "C45":
         name = "wit45_" + core.digest(payload["src"])[:8]
         so = build.build_ext(name, payload["src"], ".py", cflags=TRACE_CFLAGS, directives=TRACE_DIRECTIVES)
@@ -98,6 +116,17 @@ def replay(payload):
         os.environ.pop("SIMKIT_RAW_REPLAY", None)
         print("replayed: %s %s" % (st, json.dumps(r)[:500] if r is not None else None))
         return st == "crash" or (st == "ok" and r is not None)
+    if prop == "C39" and payload.get("family") == "E11":
+        from . import e11_pyx
+        cell = [c for c in C39_CELLS if c["cell"] == payload["cell"]][0]
+        outs = []
+        for kw in ({}, dict(cflags=tuple(cell.get("cflags", ())), directives=cell.get("directives"), cplus=cell.get("cplus", False))):
+            name = "wit11c_" + core.digest([payload["src"], sorted(kw.items(), key=str)])[:10]
+            so = build.build_ext(name, payload["src"], ".pyx", **kw)
+            ms = {"name": name, "src": payload["src"], "so": so, "nfuncs": 99, "meta": payload["meta"]}
+            outs.append(core.run_one_forked(e11_pyx.run_single, ms, payload["func"], payload["arg"], payload["plan"], None, timeout=60))
+        print("replayed E11 in default build and cell %s: %s" % (cell["cell"], json.dumps(outs)[:600]))
+        return outs[1][0] != "ok" or outs[0][0] != "ok" or outs[0][1]["digest"] != outs[1][1]["digest"]
     if prop == "C39" and not payload.get("corpus"):
         cell = [c for c in C39_CELLS if c["cell"] == payload["cell"]][0]
         name = "wit39_" + core.digest([payload["src"], cell["cell"]])[:10]
@@ -206,6 +235,7 @@ def _c36_prebuild(seed, tier):
             lambda: e5_refs.build_modules(seed, sz["e5_mods"], 30, "asan", ASAN_CFLAGS),
             lambda: e6_loops.build_mods([{"cell": "asan", "cflags": ASAN_CFLAGS}], tag=""),
             lambda: e8_omp.build_module(ASAN_CFLAGS, ("-fsanitize=address,undefined",), name="wl37asan"),
+            lambda: __import__("simkit.e11_pyx", fromlist=["x"]).build_modules(seed, 2 if tier == "quick" else 6, 12, "asan", ASAN_CFLAGS),
             _selftest_build,
             lambda: __import__("simkit.rider_corpus", fromlist=["x"]).build_cell("asan", ASAN_CFLAGS)]
     with ThreadPoolExecutor(max_workers=len(jobs)) as ex:
@@ -329,6 +359,16 @@ def check_C36(tier):
         else:
             r.pop("violation", None)
             rep.absorb(r)
+    # E11 typed .pyx family (cdef functions / classes, typed conversions, nogil helpers) under fault plans
+    from . import e11_pyx
+    viol11, mods11, cfg11, _ = e11_pyx.explore(rep, prop, seed, tier, "asan", None, cflags=ASAN_CFLAGS, budget=budget * 0.12, nmods=2 if tier == "quick" else 6)
+    for i, v in viol11:
+        if v["klass"] == "crash":
+            if v.get("func") is None:
+                rec = e11_pyx.recover_crash(seed, i, cfg11, mods11, prop, None)
+                if rec:
+                    v = dict(v, func=rec[0], arg=rec[1], plan=rec[2])
+            note("E11", i, v, None)
     # enumerated corpus under the sanitizers (slicing/indexing around the bounds, big-int arithmetic helpers)
     from . import rider_corpus
     cname, cso = rider_corpus.build_cell("asan", ASAN_CFLAGS)
@@ -464,6 +504,49 @@ def check_C39(tier):
                     rep.absorb(r)
                     if v:
                         found.append((c["cell"], "E6", i, v))
+    # E11 typed .pyx family: no CPython model exists, so each cell's recorded traces are compared with the default build's
+    from . import e11_pyx
+    n11 = 2 if tier == "quick" else 4
+    e11_budget = max(20.0, budget * 0.12)
+
+    def _records(tag, cflags=(), directives=None, cplus=False, b=20):
+        sub = core.Report(prop, "x", tier, seed)
+        viol, mods, cfg, allres = e11_pyx.explore(sub, prop, seed, "quick", tag, "record", cflags=cflags, directives=directives, cplus=cplus, budget=b, nmods=n11)
+        crashes = [(i, v) for i, v in viol if v["klass"] == "crash"]
+        return sub, {i: r.get("records") for i, r in allres}, crashes, mods
+    sub0, rec0, crash0, mods0 = _records("c39default", b=e11_budget)
+    if not rec0:
+        rep.probes["e11_default_cell_not_built"] = 1
+    for c in (cells if rec0 else []):
+        subc, recc, crashc, modsc = _records("c39" + c["cell"], tuple(c.get("cflags", ())), c.get("directives"), c.get("cplus", False), b=e11_budget)
+        if not recc and not crashc:
+            rep.probes["e11_not_built_in_cell:" + c["cell"]] = 1
+            continue
+        rep.evaluations += subc.evaluations
+        rep.nontrivial_digests |= subc.nontrivial_digests
+        rep.add_counts(rep.fault_counts, subc.fault_counts)
+        rep.probes["e11_runs_compared_with_default_build"] = rep.probes.get("e11_runs_compared_with_default_build", 0) + len(set(recc) & set(rec0))
+        for i, v in crashc:
+            if not any(i == j for j, _ in crash0):
+                rep.violation("typed .pyx workload crashed in build cell %s (run %s), not in the default build" % (c["cell"], i),
+                              dict(v, cell=c["cell"], engine_host="E11", property=prop, seed=seed, run_index=i))
+                break
+        done = False
+        for i in sorted(set(recc) & set(rec0)):
+            a, b_ = rec0[i], recc[i]
+            if a is None or b_ is None:
+                continue
+            for x, y in zip(a, b_):
+                if x[2] != y[2]:
+                    ms = modsc[i % len(modsc)]
+                    rep.violation("typed .pyx workload behaves differently in build cell %s than in the default build (run %s): %s vs %s" % (c["cell"], i, json.dumps(x[3])[:120], json.dumps(y[3])[:120]),
+                                  {"klass": "e11-trace-differs-between-cells", "cell": c["cell"], "engine_host": "E11", "family": "E11", "property": prop, "seed": seed, "run_index": i,
+                                   "src": ms["src"], "meta": ms["meta"], "func": (i // len(modsc)) % ms["nfuncs"], "arg": x[0], "plan": x[1],
+                                   "detail": {"default": x[3], "cell": y[3]}})
+                    done = True
+                    break
+            if done:
+                break
     # enumerated corpus (integer arithmetic with constants at the PyLong digit boundaries, slicing/indexing around the bounds) in ALL cells
     from . import rider_corpus
     from concurrent.futures import ThreadPoolExecutor
